@@ -332,6 +332,7 @@ def shift_width(facts, res, R="C15.4.shift-width", roots_only=False):
     on valid deep trees.  Reported: every such shift outside the 3-D-only kernels."""
     import stages
     n_seen = n_wide = hits = 0
+    field_types = None
     for fn in facts.functions:
         if fn.get("inst"):
             continue
@@ -353,6 +354,18 @@ def shift_width(facts, res, R="C15.4.shift-width", roots_only=False):
         for x in shifts:
             a, b = kids(x)
             lt = (a.get("t") or "").strip()
+            a0 = strip(a)
+            if lt in ("<dependent type>", "") and a0 is not None and a0.get("k") in ("CXXDependentScopeMemberExpr", "MemberExpr") and a0.get("name"):
+                # member of an object whose type is deduced in the template pattern (`const auto& e = table[i][j]; e.field << n`):
+                # the declared type of every field of that name in the library decides
+                if field_types is None:
+                    field_types = {}
+                    for c_ in facts.classes:
+                        for fl_ in c_.get("fields", []):
+                            field_types.setdefault(fl_["name"], set()).add((fl_.get("t") or "").strip())
+                ts = field_types.get(a0["name"], set())
+                if ts and all(NARROW.match(t_) for t_ in ts):
+                    lt = sorted(ts)[0]
             if lt in ("<dependent type>", "") or not re.match(r"^(const )?(unsigned |signed )?(int|short|char|bool|unsigned|short int|long|long int|long long|unsigned long|long unsigned int|IndexType)\b", lt):
                 continue    # stream insertion / dependent operand
             n_seen += 1
@@ -481,7 +494,7 @@ def run(res, tier):
     res.rule("C15.4 shift width: outside the 3-D-only kernels no left shift whose amount is a run-time level / height / count is evaluated in a 32-bit type (levels up to 63/Dim are valid)")
     seen, wide, _h = shift_width(facts, res)
     res.instance("C15.4.shift-width", "integer left shifts in src/", "umbrella 'core'", "%d integer shifts examined, %d already 64-bit" % (seen, wide))
-    res.floor("C15.4.shift-width", seen, 30, "integer left shifts")
+    res.floor("C15.4.shift-width", seen, 12, "integer left shifts (37 on the pinned tree; the count moves with harmless edits, the floor only guards against the scan seeing nothing)")
     fx = os.path.join(tbf.VERIF, "fixtures", "c15_int_shift.cpp")
     ff = tbf.scan_file(fx, [], [os.path.join(tbf.VERIF, "fixtures") + os.sep])
     ctl = tbf.Result("control")
